@@ -27,6 +27,18 @@ pub fn load<'a>(secs: &'a Secs, big: bool) -> read::Dwarf<RD<'a>> {
     .unwrap()
 }
 
+/// Load the sections of a .dwo file (keys are the `.dwo` section names) and attach it to the
+/// main file that holds its skeleton unit, the way a consumer does.
+pub fn load_dwo<'a>(secs: &'a Secs, big: bool, parent: &read::Dwarf<RD<'a>>) -> read::Dwarf<RD<'a>> {
+    let mut d = read::Dwarf::load(|id| -> Result<RD<'a>, ()> {
+        let b: &'a [u8] = id.dwo_name().and_then(|n| secs.get(n)).map(|v| &v[..]).unwrap_or(&[]);
+        Ok(EndianSlice::new(b, endian(big)))
+    })
+    .unwrap();
+    d.make_dwo(parent);
+    d
+}
+
 #[derive(Clone, Copy, PartialEq, Eq, Debug)]
 pub enum RefNaming {
     /// (unit number, canonical preorder number)
@@ -116,6 +128,9 @@ type Ident = BTreeMap<usize, (usize, usize, Option<String>)>;
 struct Rend<'a, 'b> {
     dwarf: &'b read::Dwarf<RD<'a>>,
     unit: &'b read::Unit<RD<'a>>,
+    /// where the unit's line program lives (the unit itself, or the skeleton unit of a split unit)
+    ldwarf: &'b read::Dwarf<RD<'a>>,
+    lunit: &'b read::Unit<RD<'a>>,
     ident: &'b Ident,
     naming: RefNaming,
     refs: Vec<String>,
@@ -243,9 +258,9 @@ impl<'a, 'b> Rend<'a, 'b> {
         if idx == 0 && self.unit.encoding().version <= 4 {
             return "file none".to_string();
         }
-        let Some(lp) = &self.unit.line_program else { return format!("file ?noprogram({})", idx) };
+        let Some(lp) = &self.lunit.line_program else { return format!("file ?noprogram({})", idx) };
         match lp.header().file(idx) {
-            Some(f) => format!("file {}", file_ident(self.dwarf, self.unit, lp.header(), f)),
+            Some(f) => format!("file {}", file_ident(self.ldwarf, self.lunit, lp.header(), f)),
             None => format!("file ?invalid({})", idx),
         }
     }
@@ -447,7 +462,6 @@ fn dump_line<'a>(dwarf: &read::Dwarf<RD<'a>>, unit: &read::Unit<RD<'a>>) -> Resu
 
 /// Semantic dump of everything reachable from .debug_info.
 pub fn dump_dwarf<'a>(dwarf: &read::Dwarf<RD<'a>>, naming: RefNaming) -> Result<DwarfD, String> {
-    // pass 1: structure
     let mut units: Vec<read::Unit<RD<'a>>> = vec![];
     let mut it = dwarf.units();
     loop {
@@ -457,6 +471,32 @@ pub fn dump_dwarf<'a>(dwarf: &read::Dwarf<RD<'a>>, naming: RefNaming) -> Result<
             Err(e) => return Err(format!("unit headers: {:?}", e)),
         }
     }
+    dump_units(dwarf, units, naming, None)
+}
+
+/// Semantic dump of the split full unit of `dwo` (a .dwo attached to `parent` with `make_dwo`):
+/// the unit is read as a consumer reads it, i.e. with the skeleton's relocated attributes
+/// (`Unit::copy_relocated_attributes`: DW_AT_low_pc, DW_AT_addr_base, DW_AT_GNU_ranges_base), and
+/// file indices / line rows come from the skeleton's line program (DWARF 5 3.1.3: DW_AT_stmt_list
+/// is inherited from the skeleton). Returns (dump of the split unit, dump of the main file).
+pub fn dump_split<'a>(dwo: &read::Dwarf<RD<'a>>, parent: &read::Dwarf<RD<'a>>, naming: RefNaming) -> Result<(DwarfD, DwarfD), String> {
+    let sh = parent.units().next().map_err(|e| format!("skeleton header: {:?}", e))?.ok_or("no skeleton unit")?;
+    let skeleton = parent.unit(sh).map_err(|e| format!("skeleton unit: {:?}", e))?;
+    let h = dwo.units().next().map_err(|e| format!("split unit header: {:?}", e))?.ok_or("no split unit")?;
+    let mut unit = dwo.unit(h).map_err(|e| format!("split unit: {:?}", e))?;
+    if unit.dwo_id.is_none() || unit.dwo_id != skeleton.dwo_id {
+        return Err(format!("dwo ids: skeleton {:?} split {:?}", skeleton.dwo_id, unit.dwo_id));
+    }
+    unit.copy_relocated_attributes(&skeleton);
+    let d = dump_units(dwo, vec![unit], naming, Some((parent, &skeleton)))?;
+    let m = dump_dwarf(parent, naming)?;
+    Ok((d, m))
+}
+
+/// Dump the given units of `dwarf`. `line_src`: the (file, unit) holding the line program of
+/// the (single) unit when that is not the unit itself.
+pub fn dump_units<'a>(dwarf: &read::Dwarf<RD<'a>>, units: Vec<read::Unit<RD<'a>>>, naming: RefNaming, line_src: Option<(&read::Dwarf<RD<'a>>, &read::Unit<RD<'a>>)>) -> Result<DwarfD, String> {
+    // pass 1: structure
     let mut raw: Vec<Vec<RawEntry<'a>>> = vec![];
     let mut order: Vec<Vec<usize>> = vec![];
     let mut ident: Ident = BTreeMap::new();
@@ -518,10 +558,11 @@ pub fn dump_dwarf<'a>(dwarf: &read::Dwarf<RD<'a>>, naming: RefNaming) -> Result<
     // pass 2: meaning
     let mut out = DwarfD { units: vec![] };
     for (ui, unit) in units.iter().enumerate() {
-        let (line, nrows) = dump_line(dwarf, unit)?;
+        let (ldwarf, lunit) = line_src.unwrap_or((dwarf, unit));
+        let (line, nrows) = dump_line(ldwarf, lunit)?;
         let ver = unit.encoding().version;
         let file_attr_used = raw[ui].iter().any(|e| e.attrs.iter().any(|a| matches!(a.value(), RAV::FileIndex(i) if i != 0 || ver >= 5)));
-        let line_in_use = unit.line_program.is_some() && (nrows > 0 || file_attr_used);
+        let line_in_use = lunit.line_program.is_some() && (nrows > 0 || file_attr_used);
         let ty = match unit.header.type_() {
             read::UnitType::Compilation => "compile".to_string(),
             read::UnitType::Partial => "partial".to_string(),
@@ -533,7 +574,7 @@ pub fn dump_dwarf<'a>(dwarf: &read::Dwarf<RD<'a>>, naming: RefNaming) -> Result<
         let pos_of: BTreeMap<usize, usize> = order[ui].iter().enumerate().map(|(ci, &ri)| (ri, ci)).collect();
         for &ri in &order[ui] {
             let e = &raw[ui][ri];
-            let mut r = Rend { dwarf, unit, ident: &ident, naming, refs: vec![], dangling: vec![] };
+            let mut r = Rend { dwarf, unit, ldwarf, lunit, ident: &ident, naming, refs: vec![], dangling: vec![] };
             let mut attrs: Vec<(u16, String)> = vec![];
             for a in &e.attrs {
                 if let Some(s) = r.attr(a, line_in_use) {
